@@ -7,9 +7,11 @@ import (
 	"fmt"
 	"io"
 	"net/http"
+	"sort"
 	"strconv"
 	"strings"
 	"sync"
+	"sync/atomic"
 	"time"
 
 	"github.com/lopolopen/shoot/middleware"
@@ -102,8 +104,14 @@ func oneRetry(line string) string {
 	base := middleware.RoundTripper(func(req *http.Request) (*http.Response, error) {
 		now := time.Now()
 		i := calls
+		if i > 0 && now.Sub(lastEnd) > delay+lateSlack {
+			// upper bound: the wait is d, not something else (a gap far beyond d is marked and only believed after it has been
+			// reproduced on sequential re-runs, see runRetry)
+			trace = append(trace, "L")
+			lateGaps.Add(1)
+		}
 		if i > 0 && delay > 0 && now.Sub(lastEnd) >= delay {
-			// lower bound only: the gap since the previous call returned was at least d
+			// lower bound: the gap since the previous call returned was at least d
 			trace = append(trace, "s")
 		}
 		calls++
@@ -219,20 +227,94 @@ func oneRetry(line string) string {
 	return sb.String()
 }
 
+// a gap between two calls that exceeds d by more than this is "late"
+const lateSlack = 150 * time.Millisecond
+
+var lateGaps atomic.Int64
+
+func isLate(res string) bool {
+	for _, l := range strings.Split(res, "\n") {
+		if strings.Contains(l, " impl trace") && strings.Contains(l+" ", " L ") {
+			return true
+		}
+	}
+	return false
+}
+
+func stripLate(res string) string {
+	ls := strings.Split(res, "\n")
+	for k, l := range ls {
+		if strings.Contains(l, " impl trace") {
+			f := strings.Split(l, " ")
+			g := f[:0]
+			for _, t := range f {
+				if t != "L" {
+					g = append(g, t)
+				}
+			}
+			ls[k] = strings.Join(g, " ")
+		}
+	}
+	return strings.Join(ls, "\n")
+}
+
+// runRetry runs every line (64 at a time). A late gap seen in the parallel run may be the machine's load: the case is
+// re-run alone, five times, and its late marks are kept only when every re-run is late as well. Once a late case has been
+// confirmed the remaining lines are not run (a loop that oversleeps would take hours): they are reported as skipped.
 func runRetry(lines []string, out *bufio.Writer) {
 	res := make([]string, len(lines))
-	var wg sync.WaitGroup
-	sem := make(chan struct{}, 64)
-	for i := range lines {
-		wg.Add(1)
-		sem <- struct{}{}
-		go func(i int) {
-			defer wg.Done()
-			defer func() { <-sem }()
-			res[i] = oneRetry(lines[i])
-		}(i)
+	pending := make([]int, len(lines))
+	for i := range pending {
+		pending[i] = i
 	}
-	wg.Wait()
+	confirmed := false
+	for len(pending) > 0 && !confirmed {
+		var wg sync.WaitGroup
+		var mu sync.Mutex
+		var deferred, late []int
+		sem := make(chan struct{}, 64)
+		start := lateGaps.Load()
+		for _, i := range pending {
+			if lateGaps.Load()-start >= 8 {
+				deferred = append(deferred, i)
+				continue
+			}
+			wg.Add(1)
+			sem <- struct{}{}
+			go func(i int) {
+				defer wg.Done()
+				defer func() { <-sem }()
+				res[i] = oneRetry(lines[i])
+				if isLate(res[i]) {
+					mu.Lock()
+					late = append(late, i)
+					mu.Unlock()
+				}
+			}(i)
+		}
+		wg.Wait()
+		sort.Ints(late)
+		for k, i := range late {
+			ok := k < 8
+			for r := 0; ok && r < 5; r++ {
+				again := oneRetry(lines[i])
+				if isLate(again) {
+					res[i] = again
+				} else {
+					ok = false
+				}
+			}
+			if ok {
+				confirmed = true
+			} else {
+				res[i] = stripLate(res[i])
+			}
+		}
+		pending = deferred
+	}
+	for _, i := range pending {
+		res[i] = strings.Fields(lines[i])[0] + " impl skipped after-confirmed-late-gap\n"
+	}
 	for _, r := range res {
 		out.WriteString(r)
 	}
